@@ -156,10 +156,16 @@ fn call(pool: &dyn Pool, op: &Op) -> Res {
     if name == "apply" {
         let rule = operand(pool, op, 0);
         let data = operand(pool, op, 1);
-        return match jsonlogic_rs::apply(&rule, &data) {
+        // freshly parsed operands are gone after the call: check here that the call left them alone
+        let watch = op.fresh && rule.to_string() == op.args[0] && data.to_string() == op.args[1];
+        let r = match jsonlogic_rs::apply(&rule, &data) {
             Ok(v) => Res::Ok(v.to_string()),
             Err(e) => Res::Err(e.to_string()),
         };
+        if watch && (rule.to_string() != op.args[0] || data.to_string() != op.args[1]) {
+            hooks::set_input_modified();
+        }
+        return r;
     }
     let h = &name[3..];
     if HELPERS_1.contains(&h) {
